@@ -574,6 +574,13 @@ func (s *backendSuite) do(t []string) string {
 			// the PREWRITE of its transaction has reached the cluster; client-go rolls the transaction back, leaving a
 			// rollback record on its keys. The answer is what the backend told that client.
 			res = abandonRun(func(actx context.Context) string { return s.runOp(actx, s.b, t) })
+		} else if opts["gone"] == "1" {
+			// gone=1: the caller of this request is gone before the backend sees it (its context is already cancelled: the
+			// unary deadline passed or the client hung up while the request was queued). Whatever the backend answers,
+			// a revision it deals for the request must be resolved
+			gctx, cancel := context.WithCancel(ctx)
+			cancel()
+			res = s.runOp(gctx, s.b, t)
 		} else {
 			res = s.runOp(ctx, s.b, t)
 		}
